@@ -30,15 +30,14 @@ Proof.
   - destruct (run s); [fin|]. destruct (pend s); [fin|]. destruct (act s); fin.
 Qed.
 
-Lemma rcd_mono : forall c st r0, guard c st = true ->
-  forall es1 es2,
+Lemma rcd_mono : forall c st r0 es1 es2,
     rcd (run_events c st (init_state r0) es1) <= rcd (run_events c st (init_state r0) (es1 ++ es2)).
 Proof.
-  intros c st r0 G es1 es2.
+  intros c st r0 es1 es2.
   assert (Hrun : forall es s, run_events c st s (es1 ++ es) = run_events c st (run_events c st s es1) es).
   { clear. induction es1 as [|e es1 IH]; intros es s; cbn [app run_events]; [reflexivity|apply IH]. }
   rewrite Hrun.
-  generalize (inv_reachable c st r0 G es1). generalize (run_events c st (init_state r0) es1).
+  generalize (inv_reachable c st r0 es1). generalize (run_events c st (init_state r0) es1).
   induction es2 as [|e es2 IH]; intros s I; cbn [run_events]; [lia|].
   etransitivity; [apply (rcd_step_mono c st r0 s e I)|]. apply IH. apply inv_step; assumption.
 Qed.
